@@ -89,7 +89,7 @@ def run(ctx, pid, prefixes, what, assumptions):
     rep.cov["distinct_nontrivial"] = len(nontrivial)
     rep.cov["rule"] = ("%d generated worlds (declaring package d, alias package m, user packages u / ok / bypath, sites inside d itself; 1-4 files each incl. _test.go), every candidate "
                        "statement on its own line with a site id, nested at random depth 0-3 under if/for/switch/select/closure/defer/go/block, inside functions, methods, "
-                       "constructor-named functions, @testonly functions and package-level initialisers; type spelled directly, through an import alias, a third-package alias or a local alias; "
+                       "constructor-named functions, @testonly functions and package-level initialisers; type spelled directly, through an import alias, a third-package alias, a local alias or a dot import; "
                        "the binary (-json) and the model (ggx skel -> modelrun) are run on the whole module under the default and the scan-tests configuration and compared by (file, line, code). "
                        "evaluations = candidate sites x configurations; non-trivial = distinct (site, code, configuration) actually reported with a code of this property" % res["n"])
     rep.cov["input_distribution"] = {k: res["stats"][k] for k in ("tags", "depth", "nest", "place", "spelling", "tdoc")}
